@@ -298,6 +298,7 @@ class CellObj:
 
 
 class AbsSlice:
+    typestate = True
     not_none = True
 
     def __init__(s, it, db, toks, env, label=''):
